@@ -11,6 +11,10 @@
         answers (in call order of the kernel):  pipe results r:w or x (failure) for in,out,err; tmp0..2 (fd or x); spawn ok 0|1;
         dup results for in,out,err (fd or x):   pin pout perr t0 t1 t2 ok din dout derr
    Output:  res=<…> safe=<0|1> log=<syscalls> child=<fd:obj:cx …|FAILED> parent=<fd:obj:cx …> proc=<owns…>
+     L <status> <ops…>      life cycle of one process value {:in stream :out :pipe :err :pipe} (owns 11 and 12):
+        w (os/proc-wait in its own fiber) | x (the same, the fiber is cancelled while it waits) | c (os/proc-close in its own fiber)
+        | R (the child exits: the reaper delivers <status> as soon as / if somebody waits)
+   Output:  one token per w / x / c: val:<status> | err (cannot wait twice) | nil | cancelled | pending;  rc=<return code|none> closed=<n>
 -/
 import Driver.Util
 import JanetModel.Stream.Model
@@ -156,12 +160,62 @@ def run (moves : Bool) (rq : Req) (a : JanetModel.Proc.Ans) (t0 : Tab) (q : List
 
 end P
 
+namespace L
+open JanetModel.Proc
+
+structure LS where
+  p : ProcSt
+  released : Bool := false
+  waiterAlive : Bool := true
+  waiterIdx : Option Nat := none      -- index (in `outs`) of the op whose fiber is suspended in the reaper wait
+  outs : List String := []            -- REVERSED
+
+def deliver (st : Int) (l : LS) : LS :=
+  -- the reaper callback: janet_proc_wait_cb
+  let (p', r) := l.p.step (.reaped st l.waiterAlive)
+  let tok := match r with
+    | .resumed v => s!"val:{v}"
+    | _ => "cancelled"
+  let outs := match l.waiterIdx with
+    | some i => (l.outs.reverse.set i tok).reverse
+    | none => l.outs
+  { l with p := p', waiterIdx := none, outs := outs }
+
+def op (st : Int) (l : LS) (o : String) : LS :=
+  if o == "R" then
+    let l := { l with released := true }
+    if l.p.waiting then deliver st l else l
+  else
+    let (p', r) := l.p.step (if o == "c" then .close else .wait)
+    let idx := l.outs.length
+    match r with
+    | .errWaitTwice => { l with p := p', outs := "err" :: l.outs }
+    | .nilResult => { l with p := p', outs := "nil" :: l.outs }
+    | .suspended =>
+      let l := { l with p := p', outs := "pending" :: l.outs, waiterIdx := some idx, waiterAlive := o != "x" }
+      if l.released then deliver st l else l
+    | _ => { l with p := p', outs := "?" :: l.outs }
+
+def run (st : Int) (ops : List String) : String :=
+  let p0 : ProcSt := { owns := (false, true, true), fds := (some 10, some 11, some 12) }
+  let l := ops.foldl (op st) { p := p0 }
+  let rc := match l.p.returnCode with
+    | some v => toString v
+    | none => "none"
+  String.intercalate " " l.outs.reverse ++ s!" rc={rc} closed={l.p.closedFds.length}"
+
+end L
+
 def showOutcome : JanetModel.Proc.Outcome → String
   | .code n => toString n
   | .panic => "panic"
 
 def step (_ : Unit) (toks : List String) : Unit × String :=
   match toks with
+  | "L" :: st :: ops =>
+    match st.toInt? with
+    | some st => ((), L.run st ops)
+    | none => ((), "parse-error")
   | ["X", w] =>
     match w.toInt? with
     | some w =>
